@@ -310,7 +310,14 @@ pub fn diagnostics(db: &Db) -> String {
         let mut v: Vec<String> = params.iter().map(|p| serde_json::to_string(p).unwrap()).collect();
         v.sort();
         // diagnostics without a convertible location are dropped by the server; keep their count
-        format!("{}|{}", diags.len(), v.join("|"))
+        // second line: the same diagnostics without their file (sorted), to recognise "the same
+        // error reported in another of several identical files"
+        let mut anon: Vec<String> = params
+            .iter()
+            .flat_map(|p| p.diagnostics.iter().map(|d| serde_json::to_string(d).unwrap()))
+            .collect();
+        anon.sort();
+        format!("{}|{}\n{}", diags.len(), v.join("|"), anon.join("|"))
     }) {
         None => "panic".to_string(),
         Some(s) => s,
